@@ -149,7 +149,11 @@ impl Arg for crate::track::Tz {
     fn arg_id(&self) -> i64 {
         0
     }
-    fn consume(self, _: bool) {}
+    /// the caller's function takes the value out of the accounting without running its destructor, so that every
+    /// destructor run that IS logged is the crate's
+    fn consume(self, _: bool) {
+        crate::track::zforget(self)
+    }
 }
 impl Arg for &crate::track::Tz {
     const OWNED: bool = false;
@@ -709,7 +713,8 @@ where
     let mut rec = rec.into_inner();
     // drops performed by the closure itself (mode 1) are not the crate's
     let mut dropped = track::drops_sorted(&log);
-    // zero-sized drop-counted elements: every destructor run shows as identity 0
+    // zero-sized drop-counted elements: every destructor run shows as identity 0 (the caller's function forgets the
+    // zero-sized arguments it is handed, so every logged run is the crate's)
     dropped.extend(log.iter().filter(|e| matches!(e, track::Ev::ZDrop)).map(|_| 0i64));
     for id in &rec.closure_dropped {
         if let Some(pos) = dropped.iter().position(|d| d == id) {
